@@ -154,7 +154,7 @@ impl Property for C15 {
          names a/b/ab/ba/c), the second derived from the first by: nothing, permuting insertion orders and hasher seeds, re-splitting \
          the fq name into namespace/subsystem/name, boundary-shifting name/values, moving a name between constant and variable \
          labels, changing one value / the help / a label name, or (10%) one component replaced by a 24-83 character string in A \
-         and by that string with a region removed / repeated / one character changed in B; built through Desc::new, Opts and HistogramOpts. Oracle: independently \
+         and by that string with a region removed / repeated / one character changed in B; built through Desc::new, Opts and HistogramOpts; in a quarter of the cases a refused descriptor is requested in between. Oracle: independently \
          computed structural keys <=> equality of id / dim_hash, and Registry::register verdicts follow the keys. Non-trivial: the pair \
          differs only by a boundary shift, only by order/route, or only by const-vs-variable placement. Distinct = decoded choices."
     }
@@ -358,6 +358,22 @@ impl Property for C15 {
             Ok(d) => d,
             Err(e) => return fail("valid-descriptor-rejected", format!("{:?}: {}", a, e)),
         };
+        // a quarter of the cases: a descriptor that is refused (for its variable labels, for its help, ...) is requested on
+        // this thread between the two; what a descriptor hashes to must not depend on what was attempted before
+        if src.chance(64) {
+            let bad = match src.below(4) {
+                0 => Desc::new("m".into(), "h".into(), vec!["9bad".into()], HashMap::new()),
+                1 => Desc::new("m".into(), "h".into(), vec!["a".into(), "a".into()], HashMap::new()),
+                2 => {
+                    let mut m = HashMap::new();
+                    m.insert("a".to_string(), "v".to_string());
+                    Desc::new(fq(&a), "h".into(), vec!["a".into()], m)
+                }
+                _ => Desc::new(fq(&a), String::new(), vec![], HashMap::new()),
+            };
+            ensure!(bad.is_err(), "invalid-descriptor-accepted", "{:?}", bad.map(|d| d.fq_name));
+            rep.class("refused-descriptor-in-between");
+        }
         let db = match build(&b) {
             Ok(d) => d,
             Err(e) => return fail("valid-descriptor-rejected", format!("{:?}: {}", b, e)),
